@@ -261,6 +261,48 @@ def fam_post(tier: str, rng: random.Random) -> Iterator[dict]:
                                         yield p
 
 
+def fam_guarded(tier: str, rng: random.Random) -> Iterator[dict]:
+    """C01 / C02 / C16: stacks in which a later condition cannot be evaluated (it raises) unless the earlier ones hold -
+    the guard idiom `result is not None` below `len(result) > 0`; and bodies returning Python's own singletons
+    (NotImplemented, False, Ellipsis, 0, the empty string) like any other value."""
+    for kind in ("func", "method", "static"):
+        for isasync in (False, True):
+            # postcondition stacks of 2-3 conditions, one of them raising
+            for npost in (2, 3):
+                for bits in itertools.product([True, False], repeat=npost):
+                    for bad in range(npost):
+                        for form in ("default", "class"):
+                            p = member_prog(kind, kind == "method", [], npost, 0, [], bits, [form], False, isasync, ncalls=2,
+                                            tag="guarded-post")
+                            if p is None:
+                                continue
+                            posts = [c for c in p["con"] if c["role"] == "post"]
+                            posts[bad]["rv"] = "raises"
+                            yield p
+            # one conjunctive precondition group of 2-3 conditions / two groups
+            for shape in ([[1, 2]], [[1, 2, 3]], [[1], [2]], [[1, 2], [3]]):
+                if len(shape) > 1 and kind != "method":
+                    continue
+                n = _shape_ncons(shape)
+                for bits in itertools.product([True, False], repeat=n):
+                    for bad in range(n):
+                        p = member_prog(kind, False, shape, 0, 0, bits, [], ["default"], False, isasync, ncalls=2,
+                                        tag="guarded-pre")
+                        if p is None:
+                            continue
+                        pres = [c for c in p["con"] if c["role"] == "pre"]
+                        pres[bad]["rv"] = "raises"
+                        yield p
+            # singleton results under 0-2 postconditions
+            for v in (71, 72, 73, 74, 75):
+                for npost in (0, 1, 2):
+                    for bits in itertools.product([True, False], repeat=npost):
+                        p = member_prog(kind, kind == "method", [[1]], npost, 1 if npost else 0, [True], bits, ["default"], False,
+                                        isasync, body_out=RetV(v), ncalls=2, tag="singleton-result")
+                        if p is not None:
+                            yield p
+
+
 def fam_snap(tier: str, rng: random.Random) -> Iterator[dict]:
     """C08: snapshots x postconditions x precondition outcome x kinds x sync/async x capture flavours."""
     for kind in MEMBER_KINDS:
